@@ -2,6 +2,10 @@ import ObiVerif.Model.Writer
 import ObiVerif.Lemmas.Reseq
 import ObiVerif.Lemmas.WriterFile
 import ObiVerif.Lemmas.CsvRoundTrip
+import ObiVerif.Lemmas.WriterOutcome
+import ObiVerif.Lemmas.FastqMany
+import ObiVerif.Lemmas.CsvInj
+import ObiVerif.Lemmas.WriterJson
 /-!
 # C04 — writers emit every batch once, in order, as well-formed output (property theorems)
 
@@ -316,5 +320,426 @@ example : CsvRead.parse (([[[105, 100], [115]], [[97, 34, 44, 13, 10], [32]]] : 
   CsvRT.parse_csvRows [[[105, 100], [115]], [[97, 34, 44, 13, 10], [32]]]
     (by intro r hr; simp only [List.mem_cons, List.not_mem_nil, or_false] at hr; rcases hr with rfl | rfl <;> exact ⟨by decide, by decide⟩)
     (by intro r hr r' hr'; simp only [List.mem_cons, List.not_mem_nil, or_false] at hr hr'; rcases hr with rfl | rfl <;> rcases hr' with rfl | rfl <;> rfl)
+
+
+/-! ## second deepening: FASTQ parse-back, both outcomes on empty sequences, order-free files, paired files,
+injectivity of the CSV text -/
+
+open ObiVerif.WriterOutcome
+
+theorem all_flatten_mem {β : Type} {P : β → Prop} (f : Nat → List β) (n : Nat) (h : ∀ k, ∀ x ∈ f k, P x) :
+    ∀ x ∈ ((List.range n).map f).flatten, P x := by
+  intro x hx
+  obtain ⟨l, hl, hxl⟩ := List.mem_flatten.mp hx
+  obtain ⟨k, _, rfl⟩ := List.mem_map.mp hl
+  exact h k x hxl
+
+/-- **FASTQ file, parse-back.** Whatever the arrival order and the empty batches, the file written for batches of
+well-formed records is read back by the 12-state chunk parser of `/repo` (model of C02, `FastqChunkParser(shift, true)`)
+followed by `ParseFastSeqJsonHeader` as exactly the records of all batches in batch order, the qualities being those
+the writer prints (40 everywhere when the record has none) clamped at 93.  `hq`: the qualities, when present, are as
+long as the sequence (what `BioSequence` guarantees for a record read from a FASTQ file). -/
+theorem fastq_file_reads_back {α : Type} [DecidableEq α] (J : Header.JsonLib α) (sh : UInt8) (hsh : sh = 33 ∨ sh = 64)
+    (se : Bool) (recs : Nat → List (Header.Record α))
+    (hJ : ∀ k, ∀ x ∈ recs k, J.OKat (x.ann, x.defn)) (hWF : ∀ k, ∀ x ∈ recs k, Header.WF x)
+    (hq : ∀ k, ∀ x ∈ recs k, (Header.qualities x.seq x.qual).length = x.seq.length)
+    (n : Nat) (ks : List Nat) (hp : ks.Perm (List.range n)) :
+    ∃ out, writeFile { kind := Kind.fastq, shift := sh, skipEmpty := se } (ks.map fun k => (k, (recs k).map (recOf J)))
+        = some out ∧
+      Header.readFastq J sh out
+        = some ((((List.range n).map recs).flatten).map
+            (fun x => { x with qual := some ((Header.qualities x.seq x.qual).map (fun q => min q 93)) })) :=
+  ⟨_, fastq_file_is_records_in_order J sh se recs (fun k x hx => (hWF k x hx).seq_ne) n ks hp,
+    Header.write_read_fastq_many_aux J sh hsh _ (all_flatten_mem recs n hJ) (all_flatten_mem recs n hWF)
+      (all_flatten_mem recs n hq)⟩
+
+/-- **Both outcomes of a FASTA / FASTQ file on empty sequences** (`FormatFastaBatch` / `FormatFastqBatch`,
+`skipEmpty` = option `OptionsSkipEmptySequence`), for every `n`, every arrival order, ARBITRARY records:
+* `skipEmpty` on, or no sequence of length zero: the file is the texts of the records whose sequence is not empty, in
+  batch order (`keep` filters; `recText` is `FormatFasta`+`\n` or `_formatFastq`);
+* otherwise the formatter that meets the empty sequence calls `log.Fatalf`: outcome `none`, nothing is promised of
+  the file. -/
+theorem seq_file_outcomes (c : Cfg) (hk : c.kind = Kind.fasta ∨ c.kind = Kind.fastq) (recs : Nat → List Rec)
+    (n : Nat) (ks : List Nat) (hp : ks.Perm (List.range n)) :
+    writeFile c (ks.map fun k => (k, recs k)) =
+      if c.skipEmpty || (List.range n).all (fun k => noEmpty (recs k))
+      then some ((keep ((List.range n).map recs).flatten).map (recText c)).flatten
+      else none :=
+  seqfile_outcome c hk recs n ks hp
+
+/-- **Fatal exactly on an empty sequence**: without `skipEmpty` the writer dies iff some record of some batch has a
+sequence of length zero (whatever the arrival order). -/
+theorem seq_file_fatal_iff (c : Cfg) (hk : c.kind = Kind.fasta ∨ c.kind = Kind.fastq) (hse : c.skipEmpty = false)
+    (recs : Nat → List Rec) (n : Nat) (ks : List Nat) (hp : ks.Perm (List.range n)) :
+    writeFile c (ks.map fun k => (k, recs k)) = none ↔ ∃ k, k < n ∧ ∃ r ∈ recs k, r.seq = [] := by
+  rw [seqfile_outcome c hk recs n ks hp, hse]
+  simp only [Bool.false_or]
+  constructor
+  · intro h
+    by_cases hall : (List.range n).all (fun k => noEmpty (recs k)) = true
+    · rw [if_pos hall] at h; cases h
+    · obtain ⟨k, hkn, hb⟩ := all_range_false (by simpa using hall)
+      refine ⟨k, hkn, ?_⟩
+      simp only [noEmpty, List.all_eq_false] at hb
+      obtain ⟨r, hr, hr'⟩ := hb
+      exact ⟨r, hr, by simpa using hr'⟩
+  · rintro ⟨k, hkn, r, hr, hre⟩
+    have : (List.range n).all (fun k => noEmpty (recs k)) = false := by
+      apply List.all_eq_false.mpr
+      refine ⟨k, List.mem_range.mpr hkn, ?_⟩
+      simp only [noEmpty, Bool.not_eq_true]
+      exact List.all_eq_false.mpr ⟨r, hr, by simp [hre]⟩
+    rw [this]; rfl
+
+/-- **Skipped records never reach the file**: with `skipEmpty` the file of a stream is the file of the same stream
+without its empty-sequence records (never fatal). -/
+theorem seq_file_skip_empty (c : Cfg) (hk : c.kind = Kind.fasta ∨ c.kind = Kind.fastq) (hse : c.skipEmpty = true)
+    (recs : Nat → List Rec) (n : Nat) (ks : List Nat) (hp : ks.Perm (List.range n)) :
+    writeFile c (ks.map fun k => (k, recs k)) = writeFile c (ks.map fun k => (k, keep (recs k))) ∧
+    writeFile c (ks.map fun k => (k, recs k))
+      = some ((keep ((List.range n).map recs).flatten).map (recText c)).flatten := by
+  have h1 := seqfile_outcome c hk recs n ks hp
+  have h2 := seqfile_outcome c hk (fun k => keep (recs k)) n ks hp
+  rw [hse] at h1 h2
+  simp only [Bool.true_or, if_true] at h1 h2
+  refine ⟨?_, h1⟩
+  rw [h1, h2]
+  congr 3
+  rw [keep_flatten, keep_flatten, List.map_map, List.map_map]
+  congr 1
+  apply List.map_congr_left
+  intro k _
+  simp [keep]
+
+theorem keep_map_recOf {α : Type} [DecidableEq α] (J : Header.JsonLib α) (l : List (Header.Record α)) :
+    keep (l.map (recOf J)) = (l.filter (fun x => decide (x.seq ≠ []))).map (recOf J) := by
+  unfold keep
+  rw [List.filter_map]
+  rfl
+
+/-- **FASTA file with skipped records, parse-back**: with `skipEmpty`, for records that are well formed whenever their
+sequence is not empty, the file reads back as exactly the records with a non-empty sequence, in batch order. -/
+theorem fasta_file_reads_back_skipping {α : Type} [DecidableEq α] (J : Header.JsonLib α)
+    (recs : Nat → List (Header.Record α))
+    (hJ : ∀ k, ∀ x ∈ recs k, J.OKat (x.ann, x.defn))
+    (hWF : ∀ k, ∀ x ∈ recs k, x.seq ≠ [] → Header.WF x)
+    (n : Nat) (ks : List Nat) (hp : ks.Perm (List.range n))
+    (hne : (((List.range n).map recs).flatten).filter (fun x => decide (x.seq ≠ [])) ≠ []) :
+    ∃ out, writeFile { kind := Kind.fasta, skipEmpty := true } (ks.map fun k => (k, (recs k).map (recOf J))) = some out ∧
+      Header.readFasta J out
+        = some (((((List.range n).map recs).flatten).filter (fun x => decide (x.seq ≠ []))).map
+            (fun x => { x with qual := none })) := by
+  have h := (seq_file_skip_empty { kind := Kind.fasta, skipEmpty := true } (Or.inl rfl) rfl
+    (fun k => (recs k).map (recOf J)) n ks hp).2
+  refine ⟨_, h, ?_⟩
+  have e : ((List.range n).map fun k => (recs k).map (recOf J)).flatten
+      = (((List.range n).map recs).flatten).map (recOf J) := by
+    rw [List.map_flatten, List.map_map]; rfl
+  rw [e, keep_map_recOf, List.map_map]
+  have e2 : (recText { kind := Kind.fasta, skipEmpty := true } ∘ recOf J) = Header.writeFasta J := by
+    funext x; simp [recText, fastaText, recOf, Header.writeFasta]
+  rw [e2]
+  have hmem : ∀ x ∈ (((List.range n).map recs).flatten).filter (fun x => decide (x.seq ≠ [])),
+      J.OKat (x.ann, x.defn) ∧ Header.WF x := by
+    intro x hx
+    obtain ⟨hx1, hx2⟩ := List.mem_filter.mp hx
+    exact ⟨all_flatten_mem recs n hJ x hx1,
+      all_flatten_mem (P := fun x => x.seq ≠ [] → Header.WF x) recs n hWF x hx1 (by simpa using hx2)⟩
+  cases hall : (((List.range n).map recs).flatten).filter (fun x => decide (x.seq ≠ [])) with
+  | nil => exact absurd hall hne
+  | cons r rs =>
+    rw [hall] at hmem
+    exact Header.write_read_fasta_many_aux J r rs (fun x hx => (hmem x hx).1) (fun x hx => (hmem x hx).2)
+
+/-- non-vacuity and a test of both outcomes on a concrete stream (arrival order 1, 0; the second record of batch 0
+has an empty sequence): skipped with `skipEmpty`, fatal without -/
+example :
+    let recs : Nat → List Rec := fun k =>
+      if k = 0 then [⟨[65, 48], [97], none, [], []⟩, ⟨[65, 49], [], none, [], []⟩]
+      else [⟨[66, 48], [97], none, [], []⟩, ⟨[66, 49], [97], none, [], []⟩]
+    writeFile { kind := Kind.fasta, skipEmpty := true } ([1, 0].map fun k => (k, recs k))
+        = some [62, 65, 48, 32, 10, 97, 10, 62, 66, 48, 32, 10, 97, 10, 62, 66, 49, 32, 10, 97, 10] ∧
+    writeFile { kind := Kind.fasta, skipEmpty := false } ([1, 0].map fun k => (k, recs k)) = none := by
+  intro recs
+  constructor
+  · rw [seqfile_outcome _ (Or.inl rfl) recs 2 [1, 0] (by decide)]; decide
+  · rw [seqfile_outcome _ (Or.inl rfl) recs 2 [1, 0] (by decide)]; decide
+
+/-- **The file does not depend on the arrival order** — most general form: for every writer, every option set,
+arbitrary records (also those on which a formatter dies or that are outside the model), the outcome for an arrival
+order `ks` is the outcome for the batches arriving in order `0, 1, …, n-1`. -/
+theorem file_order_free (c : Cfg) (recs : Nat → List Rec) (n : Nat) (ks : List Nat) (hp : ks.Perm (List.range n)) :
+    writeFile c (ks.map fun k => (k, recs k)) = writeFile c ((List.range n).map fun k => (k, recs k)) := by
+  by_cases hall : ∀ k, k < n → (fmtBatch c k (recs k)).isSome = true
+  · -- a total text function (batches beyond n replaced by a batch that is always formatted: the empty one)
+    let recs' : Nat → List Rec := fun k => if k < n then recs k else []
+    have harr : ∀ l : List Nat, (∀ k ∈ l, k < n) → (l.map fun k => (k, recs k)) = (l.map fun k => (k, recs' k)) := by
+      intro l hl
+      apply List.map_congr_left
+      intro k hk
+      simp [recs', hl k hk]
+    have hsome : ∀ k, (fmtBatch c k (recs' k)).isSome = true := by
+      intro k
+      by_cases hkn : k < n
+      · simpa [recs', hkn] using hall k hkn
+      · simp only [recs', hkn, if_false]
+        cases hc : c.kind <;> simp [fmtBatch, hc, fmtFastaBatch, fmtFastqBatch, fmtCsvBatch]
+    have htxt : ∀ k, fmtBatch c k (recs' k) = some ((fmtBatch c k (recs' k)).getD []) := by
+      intro k
+      have := hsome k
+      cases h : fmtBatch c k (recs' k) with
+      | none => rw [h] at this; cases this
+      | some t => rfl
+    rw [harr ks (fun k hk => List.mem_range.mp (hp.mem_iff.mp hk)),
+      harr (List.range n) (fun k hk => List.mem_range.mp hk)]
+    by_cases hj : c.kind = Kind.json
+    · rw [writeFile_json c hj recs' n ks, writeFile_json c hj recs' n (List.range n),
+        json_writer_perm (fun k => fmtJsonBatch c.shift (recs' k)) n ks hp,
+        json_writer_perm (fun k => fmtJsonBatch c.shift (recs' k)) n (List.range n) (List.Perm.refl _)]
+    · rw [writeFile_raw c hj recs' _ htxt n ks hp, writeFile_raw c hj recs' _ htxt n (List.range n) (List.Perm.refl _)]
+  · have : ∃ k, k < n ∧ fmtBatch c k (recs k) = none := by
+      refine Classical.byContradiction fun hne => hall fun k hkn => ?_
+      cases h : fmtBatch c k (recs k) with
+      | none => exact absurd ⟨k, hkn, h⟩ hne
+      | some t => rfl
+    obtain ⟨k, hkn, hk⟩ := this
+    rw [writeFile_none c _ (k, recs k) (List.mem_map.mpr ⟨k, hp.mem_iff.mpr (List.mem_range.mpr hkn), rfl⟩) hk,
+      writeFile_none c _ (k, recs k) (List.mem_map.mpr ⟨k, List.mem_range.mpr hkn, rfl⟩) hk]
+
+/-! ### paired output -/
+
+/-- **Paired files, general form.** `Write…ToFile` on a paired stream writes the records through a first writer and
+the mates (`iterator.PairedWith()`, same batch numbers) through a second one with the same options; the two writer
+goroutines see the batches in two unrelated orders `ks1`, `ks2`.  Whatever these orders, the pair of files is the pair
+written when both see the batches in order: file 1 is the file of the records, file 2 the file of their mates,
+batch by batch at the same positions (so every single-file theorem above applies to both with the same indices). -/
+theorem paired_files_order_free (c : Cfg) (pairs : Nat → PBatch) (n : Nat) (ks1 ks2 : List Nat)
+    (hp1 : ks1.Perm (List.range n)) (hp2 : ks2.Perm (List.range n)) :
+    writePaired c (ks1.map fun k => (k, pairs k)) (ks2.map fun k => (k, pairs k)) =
+      (do let f1 ← writeFile c ((List.range n).map fun k => (k, (pairs k).map Prod.fst))
+          let f2 ← writeFile c ((List.range n).map fun k => (k, (pairs k).map Prod.snd))
+          pure (f1, f2)) := by
+  rw [writePaired_eq, file_order_free c (fun k => (pairs k).map Prod.fst) n ks1 hp1,
+    file_order_free c (fun k => (pairs k).map Prod.snd) n ks2 hp2]
+
+theorem map_pair_fst {α : Type} [DecidableEq α] (J : Header.JsonLib α) (l : List (Header.Record α × Header.Record α)) :
+    (l.map fun p => (recOf J p.1, recOf J p.2)).map Prod.fst = (l.map Prod.fst).map (recOf J) := by
+  simp [List.map_map, Function.comp_def]
+
+theorem map_pair_snd {α : Type} [DecidableEq α] (J : Header.JsonLib α) (l : List (Header.Record α × Header.Record α)) :
+    (l.map fun p => (recOf J p.1, recOf J p.2)).map Prod.snd = (l.map Prod.snd).map (recOf J) := by
+  simp [List.map_map, Function.comp_def]
+
+theorem flatten_map_proj {β γ : Type} (f : β → γ) (g : Nat → List β) (n : Nat) :
+    ((List.range n).map fun k => (g k).map f).flatten = (((List.range n).map g).flatten).map f := by
+  rw [List.map_flatten, List.map_map]; rfl
+
+/-- **Paired FASTA files stay in step.** For well-formed records and mates, whatever the two arrival orders and the
+empty batches, both files are written and read back (chunk parser of `/repo`) as two lists of the same length in
+which record `i` of the second file is the mate of record `i` of the first: they are the two projections of the ONE
+list of pairs of all batches in batch order. -/
+theorem paired_fasta_files_in_step {α : Type} [DecidableEq α] (J : Header.JsonLib α) (se : Bool)
+    (pairs : Nat → List (Header.Record α × Header.Record α))
+    (hJ : ∀ k, ∀ p ∈ pairs k, J.OKat (p.1.ann, p.1.defn) ∧ J.OKat (p.2.ann, p.2.defn))
+    (hWF : ∀ k, ∀ p ∈ pairs k, Header.WF p.1 ∧ Header.WF p.2)
+    (n : Nat) (ks1 ks2 : List Nat) (hp1 : ks1.Perm (List.range n)) (hp2 : ks2.Perm (List.range n))
+    (hne : ((List.range n).map pairs).flatten ≠ []) :
+    ∃ f1 f2, writePaired { kind := Kind.fasta, skipEmpty := se }
+        (ks1.map fun k => (k, (pairs k).map fun p => (recOf J p.1, recOf J p.2)))
+        (ks2.map fun k => (k, (pairs k).map fun p => (recOf J p.1, recOf J p.2))) = some (f1, f2) ∧
+      Header.readFasta J f1 = some ((((List.range n).map pairs).flatten).map (fun p => { p.1 with qual := none })) ∧
+      Header.readFasta J f2 = some ((((List.range n).map pairs).flatten).map (fun p => { p.2 with qual := none })) := by
+  have hmemJ := all_flatten_mem pairs n hJ
+  have hmemW := all_flatten_mem pairs n hWF
+  obtain ⟨o1, w1, r1⟩ := fasta_file_reads_back J se (fun k => (pairs k).map Prod.fst)
+    (fun k x hx => by obtain ⟨p, hp, rfl⟩ := List.mem_map.mp hx; exact (hJ k p hp).1)
+    (fun k x hx => by obtain ⟨p, hp, rfl⟩ := List.mem_map.mp hx; exact (hWF k p hp).1) n ks1 hp1
+    (by rw [flatten_map_proj]; simpa using hne)
+  obtain ⟨o2, w2, r2⟩ := fasta_file_reads_back J se (fun k => (pairs k).map Prod.snd)
+    (fun k x hx => by obtain ⟨p, hp, rfl⟩ := List.mem_map.mp hx; exact (hJ k p hp).2)
+    (fun k x hx => by obtain ⟨p, hp, rfl⟩ := List.mem_map.mp hx; exact (hWF k p hp).2) n ks2 hp2
+    (by rw [flatten_map_proj]; simpa using hne)
+  refine ⟨o1, o2, ?_, ?_, ?_⟩
+  · rw [writePaired_eq]
+    simp only [map_pair_fst, map_pair_snd]
+    rw [w1, w2]; rfl
+  · rw [r1, flatten_map_proj, List.map_map]; rfl
+  · rw [r2, flatten_map_proj, List.map_map]; rfl
+
+/-- **Paired FASTQ files stay in step** (same statement through the 12-state FASTQ parser; qualities as printed). -/
+theorem paired_fastq_files_in_step {α : Type} [DecidableEq α] (J : Header.JsonLib α) (sh : UInt8)
+    (hsh : sh = 33 ∨ sh = 64) (se : Bool)
+    (pairs : Nat → List (Header.Record α × Header.Record α))
+    (hJ : ∀ k, ∀ p ∈ pairs k, J.OKat (p.1.ann, p.1.defn) ∧ J.OKat (p.2.ann, p.2.defn))
+    (hWF : ∀ k, ∀ p ∈ pairs k, Header.WF p.1 ∧ Header.WF p.2)
+    (hq : ∀ k, ∀ p ∈ pairs k, (Header.qualities p.1.seq p.1.qual).length = p.1.seq.length ∧
+      (Header.qualities p.2.seq p.2.qual).length = p.2.seq.length)
+    (n : Nat) (ks1 ks2 : List Nat) (hp1 : ks1.Perm (List.range n)) (hp2 : ks2.Perm (List.range n)) :
+    ∃ f1 f2, writePaired { kind := Kind.fastq, shift := sh, skipEmpty := se }
+        (ks1.map fun k => (k, (pairs k).map fun p => (recOf J p.1, recOf J p.2)))
+        (ks2.map fun k => (k, (pairs k).map fun p => (recOf J p.1, recOf J p.2))) = some (f1, f2) ∧
+      Header.readFastq J sh f1 = some ((((List.range n).map pairs).flatten).map
+        (fun p => { p.1 with qual := some ((Header.qualities p.1.seq p.1.qual).map (fun q => min q 93)) })) ∧
+      Header.readFastq J sh f2 = some ((((List.range n).map pairs).flatten).map
+        (fun p => { p.2 with qual := some ((Header.qualities p.2.seq p.2.qual).map (fun q => min q 93)) })) := by
+  obtain ⟨o1, w1, r1⟩ := fastq_file_reads_back J sh hsh se (fun k => (pairs k).map Prod.fst)
+    (fun k x hx => by obtain ⟨p, hp, rfl⟩ := List.mem_map.mp hx; exact (hJ k p hp).1)
+    (fun k x hx => by obtain ⟨p, hp, rfl⟩ := List.mem_map.mp hx; exact (hWF k p hp).1)
+    (fun k x hx => by obtain ⟨p, hp, rfl⟩ := List.mem_map.mp hx; exact (hq k p hp).1) n ks1 hp1
+  obtain ⟨o2, w2, r2⟩ := fastq_file_reads_back J sh hsh se (fun k => (pairs k).map Prod.snd)
+    (fun k x hx => by obtain ⟨p, hp, rfl⟩ := List.mem_map.mp hx; exact (hJ k p hp).2)
+    (fun k x hx => by obtain ⟨p, hp, rfl⟩ := List.mem_map.mp hx; exact (hWF k p hp).2)
+    (fun k x hx => by obtain ⟨p, hp, rfl⟩ := List.mem_map.mp hx; exact (hq k p hp).2) n ks2 hp2
+  refine ⟨o1, o2, ?_, ?_, ?_⟩
+  · rw [writePaired_eq]
+    simp only [map_pair_fst, map_pair_snd]
+    rw [w1, w2]; rfl
+  · rw [r1, flatten_map_proj, List.map_map]; rfl
+  · rw [r2, flatten_map_proj, List.map_map]; rfl
+
+/-- **With `skipEmpty` the two files of a pair can fall out of step** (what the in-step theorems exclude through
+`WF`: a record with an empty sequence whose mate is not empty is left out of file 1 only).  Concrete stream: one batch
+of two pairs, the first record of which is empty: file 1 holds one record, file 2 two. -/
+theorem paired_skip_empty_out_of_step :
+    let pairs : Nat → PBatch := fun _ =>
+      [(⟨[65], [], none, [], []⟩, ⟨[65], [99], none, [], []⟩), (⟨[66], [97], none, [], []⟩, ⟨[66], [103], none, [], []⟩)]
+    writePaired { kind := Kind.fasta, skipEmpty := true } ([0].map fun k => (k, pairs k)) ([0].map fun k => (k, pairs k))
+      = some ([62, 66, 32, 10, 97, 10], [62, 65, 32, 10, 99, 10, 62, 66, 32, 10, 103, 10]) := by
+  intro pairs
+  rw [writePaired_eq, seqfile_outcome _ (Or.inl rfl) (fun k => (pairs k).map Prod.fst) 1 [0] (by decide),
+    seqfile_outcome _ (Or.inl rfl) (fun k => (pairs k).map Prod.snd) 1 [0] (by decide)]
+  decide
+
+/-! ### CSV: the text determines the rows -/
+
+/-- **Injectivity of the CSV text.** Two lists of rows (every row with at least one field: a header of at least one
+column, data rows as long as the header) that `csv.Writer` renders as the same bytes are the same lists, field by
+field, byte by byte — no quoting ambiguity, no field or row boundary can move, CR / LF / quotes / commas inside fields
+included.  (`[]` and `[[]]` — no field / one empty field — are both written as an empty line: the only collision,
+excluded by `hne`.)  This is the well-formedness content of the CSV output that does not depend on any reader. -/
+theorem csv_text_injective (rs rs' : List (List B)) (hne : ∀ r ∈ rs, r ≠ []) (hne' : ∀ r ∈ rs', r ≠ [])
+    (h : (rs.map csvRow).flatten = (rs'.map csvRow).flatten) : rs = rs' :=
+  CsvInj.csvRows_inj rs rs' hne hne' h
+
+/-- **Injectivity of the CSV file.** Two streams (any numbers of batches ≥ 1, any arrival orders, any empty batches,
+possibly different column selections) whose CSV files are byte-identical have the same header and the same rows in
+the same order. -/
+theorem csv_file_injective (sh : UInt8) (o o' : CsvOpt) (recs recs' : Nat → List Rec) (rows rows' : Nat → List (List B))
+    (hrows : ∀ k, (recs k).mapM (csvRecord sh o) = some (rows k))
+    (hrows' : ∀ k, (recs' k).mapM (csvRecord sh o') = some (rows' k))
+    (hhdr : csvHeader o ≠ []) (hhdr' : csvHeader o' ≠ [])
+    (n n' : Nat) (hn : 0 < n) (hn' : 0 < n') (ks ks' : List Nat)
+    (hp : ks.Perm (List.range n)) (hp' : ks'.Perm (List.range n'))
+    (h : writeFile { kind := Kind.csv, shift := sh, csv := o } (ks.map fun k => (k, recs k))
+       = writeFile { kind := Kind.csv, shift := sh, csv := o' } (ks'.map fun k => (k, recs' k))) :
+    csvHeader o = csvHeader o' ∧ ((List.range n).map rows).flatten = ((List.range n').map rows').flatten := by
+  have file : ∀ (o : CsvOpt) (recs : Nat → List Rec) (rows : Nat → List (List B))
+      (_ : ∀ k, (recs k).mapM (csvRecord sh o) = some (rows k)) (n : Nat) (_ : 0 < n) (ks : List Nat)
+      (_ : ks.Perm (List.range n)),
+      writeFile { kind := Kind.csv, shift := sh, csv := o } (ks.map fun k => (k, recs k))
+        = some (((csvHeader o :: ((List.range n).map rows).flatten).map csvRow).flatten) := by
+    intro o recs rows hrows n hn ks hp
+    obtain ⟨m, rfl⟩ : ∃ m, n = m + 1 := ⟨n - 1, by omega⟩
+    let txt : Nat → B := fun k => (if k = 0 then csvRow (csvHeader o) else []) ++ ((rows k).map csvRow).flatten
+    rw [writeFile_raw { kind := Kind.csv, shift := sh, csv := o } (by intro h; cases h) recs txt
+      (fun k => by simpa [fmtBatch] using fmtCsvBatch_rows sh o k (recs k) (rows k) (hrows k)) (m + 1) ks hp]
+    congr 1
+    have e2 : ((((List.range (m + 1)).map rows).flatten).map csvRow).flatten
+        = ((List.range (m + 1)).map fun k => ((rows k).map csvRow).flatten).flatten := by
+      rw [← flatten_map_flatten, List.map_map]; rfl
+    rw [List.map_cons, List.flatten_cons, e2, List.range_succ_eq_map]
+    simp [txt, List.map_map, Function.comp_def]
+  rw [file o recs rows hrows n hn ks hp, file o' recs' rows' hrows' n' hn' ks' hp'] at h
+  have hlen : ∀ (o : CsvOpt) (recs : Nat → List Rec) (rows : Nat → List (List B))
+      (_ : ∀ k, (recs k).mapM (csvRecord sh o) = some (rows k)) (_ : csvHeader o ≠ []) (n : Nat),
+      ∀ r ∈ csvHeader o :: ((List.range n).map rows).flatten, r ≠ [] := by
+    intro o recs rows hrows hhdr n r hr
+    rcases List.mem_cons.mp hr with rfl | hr
+    · exact hhdr
+    · obtain ⟨l, hl, hrl⟩ := List.mem_flatten.mp hr
+      obtain ⟨k, _, rfl⟩ := List.mem_map.mp hl
+      have := mapM_csvRecord_length sh o (recs k) (rows k) (hrows k) r hrl
+      intro e
+      rw [e] at this
+      exact hhdr (List.length_eq_zero_iff.mp this.symm)
+  have := CsvInj.csvRows_inj _ _ (hlen o recs rows hrows hhdr n) (hlen o' recs' rows' hrows' hhdr' n')
+    (Option.some.inj h)
+  exact ⟨(List.cons.inj this).1, (List.cons.inj this).2⟩
+
+/-- non-vacuity of `csv_text_injective` and a test: the classic ambiguity candidates are told apart -/
+example : (([[[97, 44, 98]], [[97], [98]]] : List (List B)).map (fun r => csvRow r))
+    = [[34, 97, 44, 98, 34, 10], [97, 44, 98, 10]] := by
+  decide
+
+
+/-! ### JSON: the whole file is ONE valid JSON array whose i-th element is the i-th record
+
+The reader is `JsonRead.decodeText`: the token-level white-space stripper of RFC 8259 §2 (`JsonRead.strip`: copies
+string literals, drops white space between tokens, rejects white space inside a number or a literal name) followed by
+the strict decoder of property C02 (`Json.decVal`, `Model/Json.lean`, imported unchanged), the whole text having to be
+consumed.  The nested values (objects, arrays, numbers, indentation of `jVal`) are covered — not only string literals
+and the array framing. -/
+
+open ObiVerif.JsonRead ObiVerif.WriterJson
+
+/-- **JSON file, decode-back.** For every `n`, every arrival order, every set of empty batches and ARBITRARY records
+(any identifier / sequence / key / string bytes, any ints, lists and maps nested without bound), the file is accepted
+by the JSON reader as exactly one value: the array `fileJ` of the objects of the records of all batches in batch order. -/
+theorem json_file_decodes (sh : UInt8) (recs : Nat → List Rec)
+    (n : Nat) (ks : List Nat) (hp : ks.Perm (List.range n)) :
+    ∃ out, writeFile { kind := Kind.json, shift := sh } (ks.map fun k => (k, recs k)) = some out ∧
+      decodeText out = some (fileJ sh ((List.range n).map recs).flatten) := by
+  refine ⟨_, json_file_is_array_of_record_texts sh recs n ks hp, ?_⟩
+  rw [← fmtJsonBatch_join]
+  exact decodeText_file sh _
+
+/-- the `i`-th element of that array is the object of the `i`-th record written (none beyond the last record) -/
+theorem json_file_element (sh : UInt8) (rs : List Rec) (i : Nat) :
+    (match fileJ sh rs with | .arr l => JList.get? l i | _ => none) = (rs[i]?).map (recJ sh) :=
+  fileJ_get sh rs i
+
+theorem key_id : ofStr "id" = [105, 100] := by decide +kernel
+theorem key_sequence : ofStr "sequence" = [115, 101, 113, 117, 101, 110, 99, 101] := by decide +kernel
+theorem key_qualities : ofStr "qualities" = [113, 117, 97, 108, 105, 116, 105, 101, 115] := by decide +kernel
+theorem key_annotations : ofStr "annotations" = [97, 110, 110, 111, 116, 97, 116, 105, 111, 110, 115] := by decide +kernel
+
+/-- **What the object of a record holds**: member `id` is the identifier; `sequence` the sequence (absent when it is
+empty: `HasSequence`); `qualities` the quality string `QualitiesString()` (absent without qualities); `annotations`
+the annotation map, every map printed by sorted key (absent when the record has no annotation). -/
+theorem json_record_fields (sh : UInt8) (r : Rec) :
+    field (ofStr "id") (recJ sh r) = some (.str r.id) ∧
+    field (ofStr "sequence") (recJ sh r) = (if r.seq = [] then none else some (.str r.seq)) ∧
+    field (ofStr "qualities") (recJ sh r)
+      = (match r.qual with | some q => (if q = [] then none else some (.str (qualStr sh q))) | none => none) ∧
+    field (ofStr "annotations") (recJ sh r) = (if r.ann = [] then none else some (toJ (sortVal (.map r.ann)))) := by
+  simp only [key_id, key_sequence, key_qualities, key_annotations, recJ, recordVal]
+  by_cases ha : r.ann = [] <;> by_cases hs : r.seq = [] <;> cases hq : r.qual with
+  | none => simp [ha, hs, toJ, toJMems, field, JMems.find]
+  | some q => by_cases hq0 : q = [] <;> simp [ha, hs, hq0, toJ, toJMems, field, JMems.find]
+
+/-- every value the writer can be asked to print denotes a well-formed JSON value (number literals obey the grammar
+of RFC 8259 §6) and its indented text alone is read back as that value -/
+theorem json_value_decodes (v : Val) : decodeText (jVal 0 v) = some (toJ v) ∧ (toJ v).WF = true :=
+  ⟨decodeText_jVal v, toJ_WF v⟩
+
+/-- **Paired JSON files stay in step**: both files decode, to two arrays of the same length whose `i`-th elements are
+the objects of record `i` and of its mate. -/
+theorem paired_json_files_in_step (sh : UInt8) (pairs : Nat → PBatch)
+    (n : Nat) (ks1 ks2 : List Nat) (hp1 : ks1.Perm (List.range n)) (hp2 : ks2.Perm (List.range n)) :
+    ∃ f1 f2, writePaired { kind := Kind.json, shift := sh } (ks1.map fun k => (k, pairs k)) (ks2.map fun k => (k, pairs k))
+        = some (f1, f2) ∧
+      decodeText f1 = some (fileJ sh ((((List.range n).map pairs).flatten).map Prod.fst)) ∧
+      decodeText f2 = some (fileJ sh ((((List.range n).map pairs).flatten).map Prod.snd)) := by
+  obtain ⟨o1, w1, d1⟩ := json_file_decodes sh (fun k => (pairs k).map Prod.fst) n ks1 hp1
+  obtain ⟨o2, w2, d2⟩ := json_file_decodes sh (fun k => (pairs k).map Prod.snd) n ks2 hp2
+  refine ⟨o1, o2, ?_, ?_, ?_⟩
+  · rw [writePaired_eq, w1, w2]; rfl
+  · rw [d1, flatten_map_proj]
+  · rw [d2, flatten_map_proj]
+
+/-- non-vacuity of the reader: a text with white space inside a number is rejected, the same text without it is read -/
+example : decodeText [91, 10, 32, 32, 49, 32, 50, 10, 93, 10] = none ∧
+    decodeText [91, 10, 32, 32, 49, 50, 10, 93, 10] = some (.arr (.cons (.num [49, 50]) .nil)) := by
+  constructor <;> decide
 
 end ObiVerif.Props.C04
